@@ -23,7 +23,7 @@ INFO = {
                   'dawgie.Value.__getstate__/__setstate__'],
     'bounds': {
         'quick': 'contents distinct per update, and a second family with two contents shared by all keys and alternating per step (a key is rewritten with a content already in the store); 3 authors (ta.a, ta.a2, tb.a), targets T1/T2, run ids {1,2,10} (+99 requested but never stored), histories of <=3 operations from 18 kinds, 24 loads after each',
-        'thorough': 'same world, histories of <=4 operations whose first operation is an update of author ta.a (all 18 kinds afterwards)',
+        'thorough': 'same world, histories of <=4 operations whose first operation is one of the first two update kinds of author ta.a (all 18 kinds afterwards); alternating-content family of <=4 operations starting with any update of ta.a',
     },
     'assumptions': [
         'tables are dicts installed in the DBI singleton; the blob store and staging area are an in-memory file system; md5sum/sha1sum answered with hashlib',
